@@ -48,6 +48,8 @@ func runC12(r *an.Run) {
 	// must hand back its input as it is — not a re-printed copy of it
 	c06APIReturnsSrc(r)
 	relabel(r, "R4-api-returns-src-unchanged", "R7-library-leaves-an-unmatched-file-as-the-command-does")
+	// both pipelines advance the astdiff snapshot after every change (the library copy must not fall behind)
+	snapshotAdvances(r, "R4-cli-and-library-agree")
 }
 
 func c12NoMutationInDryRun(r *an.Run, m *runModel) {
